@@ -91,6 +91,62 @@ class Units:
         self.fid = fid
         self.report = report   # callback(kind, line, detail)
         self.nchecked = 0
+        self.idx = {}     # collection local -> unit of its index domain
+        self.clos = {}    # let-bound closure -> units of its parameters
+
+    # ---- backward inference for closure parameters ------------------------------
+    def infer_closure_params(self, cl, env):
+        """a closure parameter that is passed where the callee declares a unit, or that indexes a collection
+        with a known index domain, has that unit"""
+        names = [p.get("n") if p.get("k") == "bind" else None for p in cl["params"]]
+        units = {n: None for n in names if n}
+
+        def is_param(e):
+            while isinstance(e, dict) and e.get("k") in ("ref", "use", "cast"):
+                e = e["e"]
+            if isinstance(e, dict) and e.get("k") == "path" and e.get("res") == "local" and e["n"] in units:
+                return e["n"]
+            return None
+        for n in H.walk(cl["body"]):
+            k = n.get("k")
+            if k in ("call", "mcall"):
+                sig = self.sig_of(n)
+                if sig:
+                    ptys = sig["ptys"][1:] if k == "mcall" else sig["ptys"]
+                    for a, pt in zip(n["a"], ptys):
+                        pn = is_param(a)
+                        u = unit_of_hty(pt)
+                        if pn and isinstance(u, str) and units[pn] is None:
+                            units[pn] = u
+            elif k == "index":
+                pn = is_param(n["i"])
+                c = H.root_local(n["e"])
+                if pn and c in self.idx and units[pn] is None:
+                    units[pn] = self.idx[c]
+        return [units.get(n) if n else None for n in names]
+
+    def index_domain(self, e, env):
+        """`Vec::from_iter((0..count).map(|i| ...))` / `(0..count).map(|i| ...).collect()`: the index domain of
+        the collection is the unit inferred for `i`"""
+        while isinstance(e, dict) and e.get("k") in ("ref", "use"):
+            e = e["e"]
+        if not isinstance(e, dict):
+            return None
+        it = None
+        if e.get("k") == "call" and e["f"].get("k") == "path" and e["f"].get("n", "").endswith("from_iter") and e["a"]:
+            it = e["a"][0]
+        elif e.get("k") == "mcall" and e["name"] == "collect":
+            it = e["r"]
+        if not (isinstance(it, dict) and it.get("k") == "mcall" and it["name"] == "map" and it["a"]
+                and it["a"][0].get("k") == "closure"):
+            return None
+        r = it["r"]
+        while isinstance(r, dict) and r.get("k") in ("ref", "use"):
+            r = r["e"]
+        if not (isinstance(r, dict) and r.get("k") == "struct" and "Range" in r["p"].get("n", "")):
+            return None
+        us = self.infer_closure_params(it["a"][0], env)
+        return us[0] if us else None
 
     def sig_of(self, node):
         did = H.callee_did(node)
@@ -206,6 +262,14 @@ class Units:
             env2 = dict(env)
             for s in e["s"]:
                 if s["k"] == "slet":
+                    if "e" in s and s["p"].get("k") == "bind":
+                        init = s["e"]
+                        if init.get("k") == "closure":
+                            self.clos[s["p"]["n"]] = self.infer_closure_params(init, env2)
+                        else:
+                            d = self.index_domain(init, env2)
+                            if d:
+                                self.idx[s["p"]["n"]] = d
                     u = self.ex(s["e"], env2) if "e" in s else None
                     du = unit_of_hty(s.get("hty"))
                     if du and u:
@@ -269,12 +333,16 @@ class Units:
             return None
         if k == "index":
             self.ex(e["e"], env)
-            self.ex(e["i"], env)
+            iu = self.ex(e["i"], env)
+            c = H.root_local(e["e"])
+            if c in self.idx and iu:
+                self.mix("index into `%s` (filled per %s)" % (c, self.idx[c]), self.idx[c], iu, e)
             return None
         if k == "closure":
             env2 = dict(env)
-            for p in e["params"]:
-                self.bind(p, None, env2)
+            us = self.infer_closure_params(e, env)
+            for p, u in zip(e["params"], us):
+                self.bind(p, u, env2)
             self.ex(e["body"], env2)
             return None
         if k == "loop":
@@ -336,6 +404,11 @@ class Units:
         units = [self.ex(a, env) for a in e["a"]]
         if f.get("k") != "path":
             self.ex(f, env)
+            return None
+        if f.get("res") == "local" and f["n"] in self.clos:
+            for i, (au, pu) in enumerate(zip(units, self.clos[f["n"]])):
+                if au and pu:
+                    self.mix("argument %d of closure `%s`" % (i + 1, f["n"]), pu, au, e)
             return None
         sig = self.sig_of(e)
         self.args_vs_sig(e, sig, units, 0)
@@ -404,7 +477,8 @@ def run(ctx, F, rule="E-UNITS", crates=("oxidd_core", "oxidd_rules_bdd", "oxidd_
         hits = []
 
         def report(what, ln, units, hits=hits):
-            hits.append((what, ln, units))
+            if (what, ln, units) not in hits:
+                hits.append((what, ln, units))
         u = Units(F, fid, report)
         try:
             u.run()
